@@ -129,12 +129,13 @@ class Loaded:
 
 def load(modules, find_peaks=models.find_peaks_model, tukey=models.sym_tukey, detrend=models.sym_detrend,
          butter=models.opaque_butter, sosfiltfilt=models.opaque_sosfiltfilt, real_fft=False,
-         extra_fakes=None, symbolic_trig=True, shadow_builtins=True, shadow_int=False):
+         extra_fakes=None, symbolic_trig=True, shadow_builtins=True, shadow_int=False, opaque_fft=False, symbolic_pi=False):
     """Import the named hvsrpy submodules (and their intra-package dependencies) symbolically."""
     L = Loaded()
-    fft = models.make_fft_module() if not real_fft else np.fft
+    fft = models.make_fft_module(opaque=opaque_fft) if not real_fft else np.fft
     snp = _symnp.make_symnp(fft=fft)
     _symnp.SymNP.symbolic_trig = symbolic_trig
+    _symnp.SymNP.symbolic_pi = symbolic_pi
     L.np = snp
     fake = {"numpy": snp, "numpy.fft": fft}
     nrand = types.ModuleType("numpy.random")
